@@ -474,7 +474,7 @@ fn settings_strategy() -> BoxedStrategy<SettingsCase> {
 }
 
 pub fn c36(s: &mut Session) -> Meta {
-  let cases = s.tier().pick(20_000, 1_000_000);
+  let cases = s.tier().pick(300_000, 1_000_000);
   s.run_part(Part::new("precedence", cases, settings_strategy, settings_check).shrink_iters(1000));
   Meta {
     level: "exploration",
